@@ -2,6 +2,7 @@ package harness
 
 import (
 	"context"
+	"encoding/json"
 	"errors"
 	"fmt"
 	"runtime"
@@ -396,6 +397,14 @@ func RunGbnBody(t *testing.T, sc *GbnScenario, body Body) *GbnResult {
 				}
 			}
 		}()
+		// a real-time watchdog outside the bubble: a wedged connection (for instance a Close that
+		// waits for ever while other callers queue on its sync.Once) stops the bubble's clock, so
+		// nothing inside the bubble can time out; end the run with a message that names the scenario
+		wd := time.AfterFunc(4*time.Minute, func() {
+			js, _ := json.Marshal(sc)
+			panic(fmt.Sprintf("harness watchdog: scenario still running after 4 minutes of real time, a goroutine of the connection is wedged: %s", js))
+		})
+		defer wd.Stop()
 		runner := func(f func(t *testing.T)) { synctest.Test(t, f) }
 		if sc.RealTime {
 			runner = func(f func(t *testing.T)) { f(t) }
